@@ -11,6 +11,7 @@ Oracle: round trip.  G1 = the source tree, T1 = write(G1), G2 = parse(T1), T2 = 
 import gzip
 import io
 import math
+import re
 import os
 import tempfile
 import xml.etree.ElementTree as ET
@@ -30,6 +31,8 @@ ASSUMPTIONS = [
     "geometry bound: 2e-6 x (1 + |local coordinates|) x max(1, |viewport linear part|) per coordinate (matrices are written "
     "with six decimals), plus the 12-digit bound of path data; arcs additionally carry the six-digit radii of C07's "
     "known finding and are compared at 1e-5 relative",
+    "a shape whose written matrix rounds to zero at six decimals (accumulated scale below 5e-7) is outside the precision the "
+    "property grants and is excluded (counted)",
     "programmatic shapes with fill=None / stroke=None are not generated ('unspecified' is written as nothing and read back "
     "as the default paint); the re-parse uses the default configuration",
     "inch-family use offsets / translations (KF-TRANSFORM-MIXED-UNITS) are not generated",
@@ -122,9 +125,15 @@ def shape_record(e):
     return {"id": e.id, "pts": pts, "local": local, "paint": paint, "lin": lin, "det": det, "amp": amp, "arcbound": arcbound, "is_path": isinstance(e, se.Path), "width": None if e.stroke_width is None else e.stroke_width * math.sqrt(det), "arcs": any(k == "A" for k, _ in pts)}
 
 
+ZERO_MATRIX = re.compile(r"matrix\(-?0\.000000, -?0\.000000, -?0\.000000, -?0\.000000,")
+
+
 def compare(o, a, b, what, vt_norm, source_text):
     """records of generation n vs n+1"""
     if [r["id"] for r in a] != [r["id"] for r in b]:
+        if ZERO_MATRIX.search(source_text):
+            # a scale below 5e-7 is written as a zero matrix: outside the six-decimal precision the property grants
+            return o.excluded("a written matrix rounds to zero at six decimals")
         return o.violation("%s:shapes" % what, "shapes %r became %r\n  written: %s" % ([r["id"] for r in a], [r["id"] for r in b], source_text))
     for ra, rb in zip(a, b):
         for key in ("fill", "stroke"):
